@@ -9,6 +9,8 @@ import PnaVerif.Model.Solid
 import PnaVerif.Model.Cli.Text
 import PnaVerif.Model.Cli.Fault
 import PnaVerif.Model.Cli.Sched
+import PnaVerif.Model.Cli.PartName
+import PnaVerif.Model.Cli.ModeText
 import PnaVerif.Model.Cli.Wire
 /-
   Line-protocol driver: one request per line on stdin, one canonical answer per line on stdout.
@@ -248,6 +250,18 @@ def handle (line : String) : String :=
       let s := schedRun sh n (4 * n + 8) seed {}
       s!"ok final={s.next == n && s.running.isEmpty} order=" ++ ",".intercalate (s.chan.map toString)
     | _, _, _ => "bad-op"
+  | ["chmod.apply", h, x] =>
+    match ofHex h >>= strOfBytes, x.toNat? with
+    | some s, some x => (match Cli.parseMode s with | some m => s!"ok {m.applyTo x}" | none => "err")
+    | _, _ => "bad-op"
+  | ["part.with", h, n] =>
+    match ofHex h >>= strOfBytes, n.toNat? with
+    | some p, some n => (match Cli.PartName.withPart p n with | some w => "ok " ++ toHexW (Cli.Text.utf8 w) | none => "none")
+    | _, _ => "bad-op"
+  | ["part.remove", h] =>
+    match ofHex h >>= strOfBytes with
+    | some p => (match Cli.PartName.removePart p with | some w => "ok " ++ toHexW (Cli.Text.utf8 w) | none => "none")
+    | none => "bad-op"
   | ["solid.iter", h, term] =>
     match ofHex h, (if term == "none" then some none else (parseErr term).map some) with
     | some b, some t =>
